@@ -668,3 +668,23 @@ package account
 //@   ensures [account]  unbox(ao.db.transitions[len(ao.db.transitions)-1], nftSetDefinitionChange).account != nil && *unbox(ao.db.transitions[len(ao.db.transitions)-1], nftSetDefinitionChange).account == ao.address
 //@   ensures [prefix]   forall i int :: 0 <= i && i < old(len(ao.db.transitions)) ==> ao.db.transitions[i] == old(ao.db.transitions[i])
 //@   ensures [value]    bytes(ao.data.NFTSetDefinitionHash) == @tohash32(bytes(hash)) && ao.nftSet == code
+
+// ---------------------------------------------------------------------------------------------
+// Commit visits EVERY cached account object, not only the dirty ones (C03: a commit may not lose what an earlier
+// root could read). A clean object - not dirty, not self-destructed - is left alone: the account trie keeps its
+// entry and the object is not marked deleted. (empty() looks at the in-memory caches only, so it says "empty" for
+// a storage-only account that was merely looked up; only the dirty guard keeps such an account alive.)
+//@ func ext_insertBlob
+//@   option trusted extern=(*com.tuntun.rangers/node/src/storage/trie.NodeDatabase).InsertBlob
+//@   modifies heap("storage/trie.cachedNode")
+
+//@ func accountObject.CommitTrie
+//@   option trusted
+//@   requires ao != nil
+//@   modifies ao.trie, ao.data.Root, ao.dbErr, ghost(flushed)
+
+//@ func AccountDB.Commit$1
+//@   property C03 C01
+//@   requires adb != nil && adb.accountObjectsDirty != nil
+//@   requires [types!init] istype(key, common.Address) && istype(value, *accountObject) && unbox(value, *accountObject) != nil
+//@   ensures [clean] !old(has(adb.accountObjectsDirty, unbox(key, common.Address))) && !old(unbox(value, *accountObject).suicided) ==> ghost(mtrie) == old(ghost(mtrie)) && unbox(value, *accountObject).deleted == old(unbox(value, *accountObject).deleted)
